@@ -130,6 +130,10 @@ def run_case(ctx, i, rng):
                             key = "use-tree:completion-of-renamed-entities"
                         elif any(vis_here.get(o.ent.tdef.name) is not o.ent.tdef for o in base):
                             key = "member:declared-type-not-visible-under-its-own-name-at-site"
+                        elif not Rset and any(getattr(o.ent, "tname", None) and o.ent.tname.lower() != o.ent.tdef.name.lower() and o.ent.tdef.module() is not None
+                                              and use_paths(o.ent.scope, o.ent.tdef.module()) >= 2 for o in base):
+                            # the object is declared TYPE(alias) and that alias is one the USE tree cannot resolve (C05 finding of this name)
+                            key = "use-tree:alias-of-entity-in-module-reached-by-several-use-paths"
                         else:
                             key = "completion:member:" + ("missing" if must - Rset else "extra") + (":call" if callctx else "") + (":inherited" if t.parent is not None else "")
                         res.violation(key, f"after '%' with prefix {prefix!r} at {occ.file}:{occ.line}: offered {sorted(Rset)[:8]}, members {sorted(E)}", wit)
